@@ -2,6 +2,7 @@ package main
 
 import (
 	"database/sql"
+	"errors"
 	"fmt"
 	"math/rand"
 	"os"
@@ -15,9 +16,11 @@ import (
 	"time"
 
 	"github.com/transparency-dev/merkle/rfc6962"
+	"github.com/transparency-dev/witness/internal/feeder"
 	"github.com/transparency-dev/witness/internal/persistence"
 	"github.com/transparency-dev/witness/internal/persistence/inmemory"
 	"github.com/transparency-dev/witness/internal/witness"
+	"github.com/transparency-dev/witness/omniwitness"
 	"golang.org/x/mod/sumdb/note"
 	"google.golang.org/grpc/codes"
 	"google.golang.org/grpc/status"
@@ -41,6 +44,10 @@ func gid() int64 {
 // linLate: how often the scheduler of the execution being written up moved on without the released request having
 // parked or finished (then the recorded order is not the whole truth and the small-step replay is not applied)
 var linLate int
+
+// linAdapter: the adapter the execution being written up went through (nil: none); its view of every log is compared
+// with the storage view once everything has finished
+var linAdapter feeder.Witness
 
 var tidByG sync.Map // goroutine id -> thread (request) number of the running concurrent execution
 
@@ -480,9 +487,23 @@ func (s *session) statesOf() string {
 	return r
 }
 
+// concAdapter: when set, the requests of a concurrent execution go through the adapter omniwitness.Main puts between the
+// witness and its feeders / bastion endpoint / distributor (one adapter for all of them, as in Main), not straight to
+// the Witness: whatever the adapter keeps between calls is then exercised by the same schedules
+var concAdapter feeder.Witness
+
 func runReq(w *witness.Witness, r *creq, clock *int64) {
 	r.start = atomic.AddInt64(clock, 1)
-	if r.kind == "U" {
+	if a := concAdapter; a != nil {
+		if r.kind == "U" {
+			r.ret, r.err = a.Update(bgctx, r.l.id, r.old, r.cp, r.proof)
+		} else {
+			r.ret, r.err = a.GetLatestCheckpoint(bgctx, r.l.id)
+			if errors.Is(r.err, os.ErrNotExist) {
+				r.err = status.Error(codes.NotFound, "no checkpoint (adapter)")
+			}
+		}
+	} else if r.kind == "U" {
 		r.ret, r.err = w.Update(bgctx, r.l.id, r.old, r.cp, r.proof)
 	} else {
 		r.ret, r.err = w.GetCheckpoint(r.l.id)
@@ -515,11 +536,39 @@ func writeLin(t *traceWriter, s *session, execNo int, c concCase, storeKind stri
 	if hung {
 		h = 1
 	}
-	final := "!"
+	final, loglist, aview := "!", "!", "-"
 	if !hung {
 		final = s.statesOf()
+		// the list of known logs, with multiplicity (a log listed twice is not the list of logs with a checkpoint)
+		if ls, err := s.w.GetLogs(); err == nil {
+			sort.Strings(ls)
+			hl := []string{}
+			for _, x := range ls {
+				hl = append(hl, hx([]byte(x)))
+			}
+			loglist = strings.Join(hl, ",")
+			if len(hl) == 0 {
+				loglist = "-"
+			}
+		}
+		if a := linAdapter; a != nil {
+			// what the adapter now reports as latest, per log, against what storage holds
+			parts := []string{}
+			for _, l := range s.logs {
+				b, err := a.GetLatestCheckpoint(bgctx, l.id)
+				v := "!"
+				switch {
+				case err == nil:
+					v = hx(b)
+				case errors.Is(err, os.ErrNotExist):
+					v = "-"
+				}
+				parts = append(parts, hx([]byte(l.id))+":"+v)
+			}
+			aview = strings.Join(parts, ";")
+		}
 	}
-	t.line("LIN %s case=%s store=%s init=%s final=%s hung=%d late=%d order=%s", s.id, c.name, storeKind, init, final, h, linLate, fmt.Sprint(order))
+	t.line("LIN %s case=%s store=%s init=%s final=%s hung=%d late=%d loglist=%s adapter=%s order=%s", s.id, c.name, storeKind, init, final, h, linLate, loglist, aview, fmt.Sprint(order))
 }
 
 func runConcExec(t *traceWriter, execNo int, storeKind, scratch string, c concCase, key logKey, wkeys []witKey, choices []int, ch chooser) ([]int, bool) {
@@ -535,6 +584,10 @@ func runConcExec(t *traceWriter, execNo int, storeKind, scratch string, c concCa
 	// ONE Witness serves all requests, as in production (anything it keeps in memory is shared between them); the
 	// storage wrapper learns the request a call belongs to from the calling goroutine
 	shared := s.threadWitnessF(inner, ctl, curTid)
+	concAdapter = nil
+	if execNo%2 == 1 {
+		concAdapter = omniwitness.VerifNewAdapter(shared) // every other execution: through Main's adapter
+	}
 	for i, r := range reqs {
 		go func(i int, r *creq) {
 			g := gid()
@@ -560,8 +613,10 @@ func runConcExec(t *traceWriter, execNo int, storeKind, scratch string, c concCa
 		factors, order, ok = sc.run(len(reqs), choices, settle)
 	}
 	linLate = sc.late
+	ctl.gate = nil // everything has finished (or hung): reads made for the write-up run freely
+	linAdapter = concAdapter
 	writeLin(t, s, execNo, c, storeKind, init, reqs, order, !ok)
-	linLate = 0
+	linLate, linAdapter, concAdapter = 0, nil, nil
 	s.t.line("END %s", s.id)
 	if ok {
 		closeFn()
